@@ -71,40 +71,53 @@ def run(sh):
                 meta.append((t, want, text, syn, style))
         rs = sh.w.batch(specs)
         for (t, want, text, syn, style), r in zip(meta, rs):
-            sh.ev()
-            from ..core import h64
-            h = "%016x" % h64(text)
-            rp = {"text": text, "syntax": syn, "style": style}
-            facts = {"source": text, "syntax": syn, "style": style, "model": want}
-            if "panic" in r:
-                sh.violation("panic:" + h, "panic: %s\n%s" % (r["panic"], text[:600]), rp, facts)
-                continue
-            if "ok" not in r:
-                sh.violation("rejected:" + h, "valid rule tree rejected: %s\n%s" % ((r.get("err") or {}).get("msg"), text[:800]), rp, dict(facts, error=(r.get("err") or {}).get("msg")))
-                continue
-            try:
-                got = canon_blocks(cssread.read(r["ok"])[0])
-            except cssread.CssError as e:
-                sh.violation("malformed:" + h, "output unreadable: %s" % e, rp, facts)
-                continue
-            if got != want:
-                i = 0
-                while i < min(len(got), len(want)) and got[i] == want[i]:
-                    i += 1
-                sh.violation("flatten:" + h, "flattened output differs from the reference flattener at block #%d\nmodel: %s\ngrass: %s\n%s" % (
-                    i, json.dumps(want[i:i + 2]), json.dumps(got[i:i + 2]), text[:1500]), rp, dict(facts, grass=got))
-                continue
-            sh.count("agree")
-            if depth_of(t) >= 2 and len(want) >= 2:
-                sh.nontrivial(text)
-            if n < 2 and len(want) >= 3:
-                sh.sample({"source": text[:700], "model_blocks": want[:6]})
-                n += 1
+            if judge(sh, t, want, text, syn, style, r):
+                sh.count("agree")
+                if depth_of(t) >= 2 and len(want) >= 2:
+                    sh.nontrivial(text)
+                if n < 2 and len(want) >= 3:
+                    sh.sample({"source": text[:700], "model_blocks": want[:6]})
+                    n += 1
+
+
+def judge(sh, t, want, text, syn, style, r):
+    from ..core import h64, pack
+    sh.ev()
+    h = "%016x" % h64(text)
+    rp = {"text": text, "syntax": syn, "style": style, "case": pack(t)}
+    facts = {"source": text, "syntax": syn, "style": style, "model": want}
+    if "panic" in r:
+        sh.violation("panic:" + h, "panic: %s\n%s" % (r["panic"], text[:600]), rp, facts)
+        return False
+    if "timeout" in r or "died" in r:
+        sh.inconc("watchdog-or-death")
+        return False
+    if "ok" not in r:
+        sh.violation("rejected:" + h, "valid rule tree rejected: %s\n%s" % ((r.get("err") or {}).get("msg"), text[:800]), rp, dict(facts, error=(r.get("err") or {}).get("msg")))
+        return False
+    try:
+        got = canon_blocks(cssread.read(r["ok"])[0])
+    except cssread.CssError as e:
+        sh.violation("malformed:" + h, "output unreadable: %s" % e, rp, facts)
+        return False
+    if got != want:
+        i = 0
+        while i < min(len(got), len(want)) and got[i] == want[i]:
+            i += 1
+        sh.violation("flatten:" + h, "flattened output differs from the reference flattener at block #%d\nmodel: %s\ngrass: %s\n%s" % (
+            i, json.dumps(want[i:i + 2]), json.dumps(got[i:i + 2]), text[:1500]), rp, dict(facts, grass=got))
+        return False
+    return True
 
 
 def replay(sh, payload):
+    from ..core import unpack, rejudge
     r = payload["replay"]
-    res = sh.w.compile(r)
-    print(r["text"])
-    print(res.get("ok") or res)
-    return "see output (model blocks are in the replay file's facts)"
+    t = unpack(r["case"])
+    want = canon_blocks(F.flatten(t))
+    text = ast.to_scss(t) if r["syntax"] == "scss" else ast.to_sass(t)
+    res = sh.w.compile({"text": text, "syntax": r["syntax"], "style": r["style"]})
+    print(text)
+    print("grass:", res.get("ok") or res)
+    print("model blocks:", json.dumps(want))
+    return rejudge(sh, lambda: judge(sh, t, want, text, r["syntax"], r["style"], res))
